@@ -41,7 +41,9 @@ def cases(draw):
             # mostly one uniform sampler; sometimes a line-up with history-driven samplers (they read the loss history the
             # stopping rule is evaluated on)
             "lineup": draw(st.one_of(st.none(), st.none(), gen.lineup_spec(kinds=["uniform", "halton", "rseq", "best", "cors", "pso"],
-                                                                          min_len=2, max_len=3, max_bs=3)))}
+                                                                          min_len=2, max_len=3, max_bs=3))),
+            # a user-defined scheduler that post-processes, in place, the arrays update() hands it
+            "scribbling_scheduler": draw(st.integers(0, 4)) == 0}
 
 
 def verdict(m, p):
@@ -64,8 +66,12 @@ def run_one(case, verbose, folder):
 
     cfg = {"space": gen.UNIT, "lineup": lineup_of(case),
            "loss": None, "model": "poly", "D": 1, "N": 4, "E": 1, "seed": case["seed"], "real": "zeros"}
+    sch = None
+    if case.get("scribbling_scheduler"):
+        from harness.stubs import ScribblingRoundRobin
+        sch = ScribblingRoundRobin(calib.make_samplers(cfg))
     cal = calib.build(cfg, loss=ScriptedLoss(case["script"]), verbose=verbose, saving_folder=folder,
-                      convergence_precision=case["p"])
+                      convergence_precision=case["p"], scheduler=sch)
     trace = []
     for ci, n in enumerate(case["calls"]):
         if folder and ci in case.get("restore_before", []) and cal.current_batch_index > 0:
@@ -110,6 +116,7 @@ def check_stop(ctx: Ctx, case):
                                                                   "verbose" if case["verbose"] else "quiet",
                                                                   "folder" if case["folder"] else "nofolder"] +
               (["line-up:" + "+".join(sorted({s_["kind"] for s_ in lineup_of(case)}))] if case.get("lineup") else []) +
+              (["scribbling-scheduler"] if case.get("scribbling_scheduler") else []) +
               (["restored-between-calls"] if case["folder"] and case.get("restore_before") else []))
     if amb:
         ctx.exclude("running minimum within 1e-12 (relative) of the rounding boundary")
@@ -166,6 +173,7 @@ def after_fault_cases(draw):
     c["p"] = draw(st.integers(0, 6))
     c["folder"], c["restore_before"] = False, []
     c["lineup"] = None
+    c["scribbling_scheduler"] = False
     c["fail_at"] = draw(st.integers(0, 3))
     c["calls"] = [draw(st.integers(1, 4))] + draw(st.lists(st.integers(1, 5), min_size=1, max_size=3))
     return c
